@@ -208,17 +208,18 @@ func runWalk(tg target, w walkT, out *hx.Out) {
 				continue
 			}
 			t.opName = p.op
+			own := ownMessages(p.msgs)
 			pan := hx.Catch(func() {
 				for _, m := range p.msgs {
-					scribble(m.ProtoReflect(), 0)
+					scribbleMessage(m)
 				}
 			})
 			t.settle()
-			nh, _, aliased := t.check(true)
+			nh, changed, aliased := t.check(own)
 			post := snap(inst)
 			o := obs{Step: step, Kind: "scribble", Op: p.op, Panic: pan, Nin: len(p.msgs), Nh: nh, Aliased: aliased,
-				Pre: pre.digest, Post: post.digest}
-			if post.digest != pre.digest {
+				Changed: changed, Pre: pre.digest, Post: post.digest}
+			if post.digest != pre.digest || len(changed) > 0 {
 				o.Sdiff = sdiff(pre, post)
 			}
 			line(o)
@@ -234,7 +235,7 @@ func runWalk(tg target, w walkT, out *hx.Out) {
 			t.opName = "Recheck"
 			time.Sleep(200 * time.Microsecond)
 			t.settle()
-			nh, changed, _ := t.check(false)
+			nh, changed, _ := t.check(nil)
 			post := snap(inst)
 			o := obs{Step: step, Kind: "recheck", Op: "Recheck", Nh: nh, Changed: changed, Pre: pre.digest, Post: post.digest}
 			if post.digest != pre.digest {
@@ -255,7 +256,7 @@ func runWalk(tg target, w walkT, out *hx.Out) {
 		var err error
 		pan := hx.Catch(func() { err = o.run(e) })
 		t.settle()
-		nh, changed, _ := t.check(false)
+		nh, changed, _ := t.check(nil)
 		post := snap(inst)
 		t.mu.Lock()
 		l := obs{Step: step, Kind: "call", Op: o.name, Ro: o.ro, Err: hx.Code(err), Panic: pan, Nin: t.nin, Nout: t.nout,
@@ -278,7 +279,7 @@ func runWalk(tg target, w walkT, out *hx.Out) {
 	// one last look at everything that was handed out
 	t.opName = "Recheck"
 	t.settle()
-	nh, changed, _ := t.check(false)
+	nh, changed, _ := t.check(nil)
 	post := snap(inst)
 	line(obs{Step: t.step, Kind: "recheck", Op: "Recheck", Nh: nh, Changed: changed, Pre: pre.digest, Post: post.digest})
 }
